@@ -21,10 +21,10 @@ TECH = {
     'C08': 'MIR guard dominance + must-pass-through in the server call handler (private async helpers expanded in place); imported structural clauses of the layers below (inbound / outbound framing, cancel-safety, call-envelope flags, select)',
     'C09': 'early-exit classification, path-sensitive (flag-following) must-pass-through, index/list pairing, lifetime-laundering escape analysis (MIR)',
     'C10': 'ownership-flow (move provenance) + path-sensitive must-pass-through in the server loop (MIR)',
-    'C11': 'lifetime-laundering detection + typed taint/escape analysis + who-may-write on the receive buffer (MIR)',
+    'C11': 'lifetime-laundering detection + typed taint/escape analysis + who-may-write on the receive buffer (MIR); free-lifetime rule on the impl headers of the escaping type (syntax tree)',
     'C12': 'sibling agreement of the three proxy generators (syn AST, quote fragments spliced): shared parser/emitter, destructive-attribute rule, evaluated emitter truth table; imported clauses of outbound framing, reply classification and chain accounting',
-    'C13': 'production extraction from the phrase-level parser (syntax tree -> right-linear equations -> regular expressions) with regular-language inclusion between the required minimum and the Varlink grammar + guard-based bounds engine (index/range sites, inductive cursors) + error-discipline, loop-progress and conservation rules over the parser MIR + abstract interpretation of the name scanners (byte-class / window-relative position domain) in lock-step with the DFA of the grammar rule',
-    'C14': 'format-template analysis of Display impls (AST) vs parser literal/constructor tables (AST + MIR call graph) + imported scanner-vs-grammar abstract interpretation (names)',
+    'C13': 'production extraction from the phrase-level parser (syntax tree -> right-linear equations -> regular expressions) with regular-language inclusion between the required minimum and the Varlink grammar + guard-based bounds engine (index/range sites, inductive cursors) + error-discipline, loop-progress and conservation rules over the parser MIR + abstract interpretation of the name scanners and of the white-space / comment helpers (byte-class / window-relative position domain) in lock-step with the DFA of the grammar rule',
+    'C14': 'format-template analysis of Display impls (AST) vs parser literal/constructor tables (AST + MIR call graph) + imported scanner-vs-grammar abstract interpretation (names, white space, comments)',
     'C15': 'conversion/rename pairing keyed by resolved accessors (MIR) on emitter syntax, type-table and keyword-table comparison, Ident-unraw lint (MIR)',
     'C16': 'trait-impl table extraction (MIR const bodies + promoted constants) vs mapping table; derive template and declaration-order rules (AST)',
     'C17': 'guard dominance of buffer growth by the limit test + const evaluation (MIR)',
